@@ -26,6 +26,28 @@ def cached_re_compile(
     return re.compile(pattern, flags=flags)
 
 
+def regexlit(pattern: str) -> str:
+    """
+    Returns the pattern written as a regex literal of the grammar language.
+    """
+    # NOTE: /.../ may hold escaped slashes, ?'...' and ?"..." are raw and
+    #   cannot hold their own quote character or a line break
+    if not pattern:
+        return "?''"
+    if '/' not in pattern:
+        return f'/{pattern}/'
+    if '"' not in pattern and '\n' not in pattern:
+        return f'?"{pattern}"'
+    if "'" not in pattern and '\n' not in pattern:
+        return f"?'{pattern}'"
+    escaped = re.sub(
+        r'(\\*)/',
+        lambda m: m[1] + ('\\' if len(m[1]) % 2 == 0 else '') + '/',
+        pattern,
+    )
+    return f'/{escaped}/'
+
+
 def regexpp(regex: Any) -> str:
     """
     Returns a printable version of the regexp pattern as a Python raw string.
